@@ -99,11 +99,13 @@ def script_create(ex):
     try:
         I.call(RP.create, [rp], {})
     except PyRaise as pr:
+        lib.oblige_one_writer_txn(I, 'C09.create')
         ex.oblige('C09.create.raises.class', issubclass(
             pr.exc.cls, (exception.ObjectActionError, db_exc.DBDuplicateEntry)),
             'C', {'raised': pr.exc.cls.__name__})
         ex.oblige('C09.T.create.rejected_changes_nothing', unchanged(I, db0), 'T')
         return
+    lib.oblige_one_writer_txn(I, 'C09.create')
     t = I.db.tables[T]
     n = to_term(I.read_field(rp, 'id'), 'int')
     pids = I.ghost.get('c09.pids', [])
@@ -147,11 +149,14 @@ def script_update(ex, mutate=None):
     try:
         I.call(RP.save, [rp], {'allow_reparenting': allow})
     except PyRaise as pr:
+        lib.oblige_one_writer_txn(I, 'C09.update')
         ex.oblige('C09.update.raises.class', issubclass(
             pr.exc.cls, (exception.ObjectActionError, db_exc.DBDuplicateEntry)),
             'C', {'raised': pr.exc.cls.__name__})
         ex.oblige('C09.T.update.rejected_changes_nothing', unchanged(I, db0), 'T')
         return
+    if not mutate:
+        lib.oblige_one_writer_txn(I, 'C09.update')
     t = I.db.tables[T]
     pids = I.ghost.get('c09.pids', [])
     if not pids or pids[0] is None:
@@ -264,12 +269,14 @@ def script_delete(ex):
     try:
         I.call(RP.destroy, [rp], {})
     except PyRaise as pr:
+        lib.oblige_one_writer_txn(I, 'C09.delete')
         ex.oblige('C09.delete.raises.class', issubclass(
             pr.exc.cls, (exception.CannotDeleteParentResourceProvider,
                          exception.ResourceProviderInUse, exception.NotFound)),
             'C', {'raised': pr.exc.cls.__name__})
         ex.oblige('C09.T.delete.rejected_changes_nothing', unchanged(I, db0), 'T')
         return
+    lib.oblige_one_writer_txn(I, 'C09.delete')
     t = I.db.tables[T]
     k = z3.Int('k!c09d')
     ex.oblige('C09.T.delete.row_gone', z3.Not(z3.Select(t.exists, m)), 'T')
